@@ -33,6 +33,10 @@ FailMem(e) == (IF DestUsable(e) /\ ~HasNul(e) THEN {"C03"} ELSE {})
          \cup (IF DestUsable(e) /\ ~Cleared(e) THEN {"C04"} ELSE {})
          \cup (IF DestUsable(e) /\ e.slack = 1 /\ Cleared(e) /\ ~AllZeroFrom(e, 1) THEN {"C04"} ELSE {})
 
+LsTailUnconvertible(e) ==
+  LET P == Pairs(Parse(e.fmt), e.args) IN
+  \E i \in 1..Len(P) : P[i].it.cv = 115 /\ P[i].it.len = "l" /\ P[i].a.t = "S" /\ WcsBytes(P[i].a.s, e.loc, -1) = <<-1>>
+
 JudgePrintf(e) ==
   LET nconv == HasNConv(e.fmt)
       isbuf == e.fn \in BufFns \cup WBufFns
@@ -50,6 +54,11 @@ JudgePrintf(e) ==
   ELSE IF ~e.fnull /\ nconv THEN
        (IF e.rc >= 0 THEN {"C09"} ELSE {})
          \cup (IF e.rc < 0 /\ ~ReportOK(e) THEN {"C05"} ELSE {})
+         \cup (IF e.rc < 0 THEN FailMem(e) ELSE {})
+  ELSE IF ~narrow THEN    \* the wide family delegates to libc: no text oracle (C11 names the narrow family); safety obligations only
+       (IF e.rc >= 0 /\ DestUsable(e) /\ ~HasNul(e) THEN {"C03"} ELSE {})
+         \cup (IF e.rc >= 0 /\ e.hn # 0 THEN {"C05"} ELSE {})
+         \cup (IF e.rc < 0 /\ e.hn # 1 THEN {"C05"} ELSE {})
          \cup (IF e.rc < 0 THEN FailMem(e) ELSE {})
   ELSE LET x == Expected(e) IN
        IF ~x.ok THEN
@@ -69,19 +78,21 @@ JudgePrintf(e) ==
                   \cup (IF ~HasNul(e) THEN {"C03"} ELSE {})
                   \cup (IF e.hn # 0 THEN {"C05"} ELSE {})
                   \cup (IF exact /\ e.slack = 1 /\ narrow /\ ~AllZeroFrom(e, e.rc + 1) THEN {"C08"} ELSE {})
-          ELSE (IF narrow /\ fitting = x.texts THEN {"C11", "C05"}      \* the text fits and every argument is valid: must not fail
+          ELSE (IF LsTailUnconvertible(e) /\ ReportOK(e) /\ e.rc = -EILSEQ THEN {}   \* an unconvertible character behind the precision cut may be reported
+                ELSE IF narrow /\ fitting = x.texts THEN {"C11", "C05"}      \* the text fits and every argument is valid: must not fail
                 ELSE IF narrow /\ (~ReportOK(e) \/ e.rc # -ESNOSPC) THEN {"C05"} ELSE {})
                  \cup FailMem(e)
        ELSE \* stream / stdout
           IF e.rc >= 0 THEN (IF ~narrow \/ (e.out \in x.texts /\ e.rc = Len(e.out)) THEN {} ELSE {"C11"})
                               \cup (IF e.hn # 0 THEN {"C05"} ELSE {})
-          ELSE (IF narrow THEN {"C11", "C05"} ELSE {})
+          ELSE (IF LsTailUnconvertible(e) /\ ReportOK(e) /\ e.rc = -EILSEQ THEN {} ELSE IF narrow THEN {"C11", "C05"} ELSE {})
 
 JudgeScanf(e) ==
   IF e.fault = "w" THEN {"C01"} ELSE IF e.fault = "r" THEN {"C02"} ELSE IF e.fault # "none" THEN {"C01", "C09"}
   ELSE IF NChanged(e) THEN {"C09"}
   ELSE IF e.fnull THEN {}
   ELSE IF ScanHasNConv(e.fmt) THEN (IF e.rc >= 0 \/ e.hn # 1 THEN {"C09"} ELSE {})
+  ELSE IF ScanHasSuppressedN(e.fmt) THEN {}                           \* "%*n" stores nothing: accepting or rejecting it is admitted
   ELSE (IF e.hn # 0 /\ e.h[1] = EINVAL THEN {"C09"} ELSE {})          \* a literal n is not an n conversion
 
 (* ---- named deviations: known limitations of the embedded floating-point formatter, identified by
